@@ -5,7 +5,7 @@ cd /verif
 dirs=("$@"); [ ${#dirs[@]} -eq 0 ] && dirs=(seeded/*)
 for d in "${dirs[@]}"; do
   prop=$(python3 -c "import json,sys;print(json.load(open('$d/meta.json'))['property'])")
-  git -C /repo apply "$d/patch.diff" || { echo "$d: PATCH DOES NOT APPLY"; continue; }
+  git -C /repo apply "/verif/$d/patch.diff" || { echo "$d: PATCH DOES NOT APPLY"; continue; }
   out=$(VERIF_NO_EVIDENCE=1 ./check $prop --tier quick 2>&1 | grep -E "VIOLATION|done:" | tail -2 | tr '\n' ' ')
   git -C /repo checkout -- .
   if echo "$out" | grep -q "VIOLATION property=$prop"; then echo "$d: caught by $prop"; else echo "$d: NOT CAUGHT by $prop :: $out"; fi
